@@ -93,7 +93,7 @@ def run(ctx):
         elif root_fn.path == hb.path and kind == "cw20::Cw20ExecuteMsg::Send":
             tpl = empty_funds
         elif root_fn.path == fr_.add_decimals[3].path and kind == "haloswap::pair::ExecuteMsg::UpdateNativeTokenDecimals":
-            tpl = all(re.match(r"^human\(C:cw_storage_plus::Map::load@.*\.contract_addr\)$", t) for t in tgt) and empty_funds
+            tpl = all(re.match(r"^human\(mload\(I:halo_factory::state::PAIRS\)\[.*\]\.contract_addr\)$", t) for t in tgt) and empty_funds
         if tpl is None:
             r1.fail("C07.R1:unknown-execute:%s:%s" % (root_fn.path, kind), fn.path, sp, "Wasm::Execute with payload %s in %s matches no allowed template" % (kind[:120], root_fn.path))
         elif not tpl:
@@ -235,6 +235,17 @@ def run(ctx):
         r5.fail("C07.R5:withdraw-sender", recv.path, common.span_of_block_term(recv, callbb), "withdraw handler's beneficiary ⊢ %s, expected the cw20 envelope's sender" % sorted(got))
     else:
         r5.site("withdraw beneficiary ⊢ cw20_msg.sender")
+    # the recipient / trader handed to the swap handler by both entry points (shared with C02.R8):
+    # a payout may reach only the message's `to` or the trader, never e.g. the calling token contract
+    from . import c02
+    sub = type(ctx)(ctx.prop, P)
+    c02.run(sub)
+    for i in sub.instances:
+        if i.id == "C02.R8":
+            r5.sites.extend("C02.R8: %s" % s for s in i.sites)
+            r5.evaluations += i.evaluations
+            for f in i.failures:
+                r5.fail("C07.R5:%s" % f["key"], f["fn"], f["span"], "[C02.R8] %s" % f["reason"])
     lem = ctx.inst("C07.L1", "support lemma: the transfer constructor builds only plain transfers of exactly its arguments", floor=2)
     lemmas.check_transfer_ctor(ctx, lem)
     ctx.assumptions.append("bank module and cw20-base conserve totals and debit only the message sender (standard semantics)")
